@@ -218,6 +218,14 @@ structure PairInv (w : World) (p : Nat) (a0 a1 : Asset) (lp : Nat) : Prop where
   lpNotRouter : lp ≠ w.router
   pNotRouter : p ≠ w.router
 
+/-- the environment's address allocation for a `CreatePair`: the addresses handed to the new pair contract and
+to its LP token are distinct, not in use as a pair, and not the router (`FreshOK` says the rest) -/
+structure NewAddrs (w : World) (np nl : Nat) : Prop where
+  ne : np ≠ nl
+  pairFree : w.pair nl = none
+  npNotRouter : np ≠ w.router
+  nlNotRouter : nl ≠ w.router
+
 /-- the view of a pair through its (fixed) assets and LP token -/
 def viewOf (w : World) (p : Nat) (a0 a1 : Asset) (lp : Nat) : Nat × Nat × Nat :=
   (bal w a0 p, bal w a1 p, supply w lp)
